@@ -313,6 +313,14 @@ pub fn run(a: &Args) {
             let mut r = rng.fork();
             system_history(&mut out, &mut r, None).await;
         }
+        // the production start-up sequence end to end: the binary's own `main`, as a child process
+        // (two restarts per history; quick: one history ending its 2nd incarnation gracefully, one by
+        // SIGKILL; thorough: more)
+        let boots = if a.tier == "thorough" { 8 } else { 2 };
+        for b in 0..boots {
+            let mut r = rng.fork();
+            crate::c08boot::boot_history(&mut out, &mut r, b % 2 == 0).await;
+        }
     });
     mailbox_coverage(&mut out);
     // coverage of the Command enum through the replicated actor / state
@@ -1144,20 +1152,42 @@ async fn system_history(out: &mut Out, rng: &mut Rng, corpus: Option<u8>) {
                 }
             }
         }
-        line.push_str(&format!(" {}", deltas.len()));
-        for d in &deltas {
+        // the start-up of bin/server_persistent.rs is TWO calls: apply_recovered_state(checkpoint,
+        // segment deltas), then apply_recovered_state(None, ALL WAL entries) — the WAL overlaps the
+        // segments (everything not yet truncated is replayed again).  Half of the restarts go that way:
+        // the deltas are split into a segment part and a WAL part that starts at or before the cut.
+        let two_phase = corpus.is_none() && !deltas.is_empty() && rng.chance(1, 2);
+        let (segs, wal): (Vec<ReplicationDelta>, Vec<ReplicationDelta>) = if two_phase {
+            let cut = rng.below(deltas.len() as u64 + 1) as usize;
+            let wal_from = rng.below(cut as u64 + 1) as usize;
+            out.count("sys:startup:two-phase");
+            if wal_from < cut {
+                out.count("sys:startup:wal-overlaps-segments");
+            }
+            (deltas[..cut].to_vec(), deltas[wal_from..].to_vec())
+        } else {
+            (deltas.clone(), Vec::new())
+        };
+        line.push_str(&format!(" {}", segs.len()));
+        let mut line2 = format!("NRECOVER 0 {}", wal.len());
+        for (phase, d) in segs.iter().map(|d| (1, d)).chain(wal.iter().map(|d| (2, d))) {
             let m = MRv::from_real(&d.value);
-            line.push_str(&format!(" {} {} {}", shard_of(&d.key), hex(d.key.as_bytes()), m.show()));
-            canon.push(format!("D {} {}", d.key, m.show()));
+            let t = format!(" {} {} {}", shard_of(&d.key), hex(d.key.as_bytes()), m.show());
+            if phase == 1 { line.push_str(&t) } else { line2.push_str(&t) }
+            canon.push(format!("{} {} {}", if phase == 1 { "D" } else { "W" }, d.key, m.show()));
             absorb(&d.key, &d.value);
             for s in stamps_of(&m) {
-                recovered.entry(shard_of(&d.key)).or_default().push((s, "recovered-delta", d.key.clone()));
+                recovered.entry(shard_of(&d.key)).or_default().push((s, if phase == 1 { "recovered-delta" } else { "recovered-wal" }, d.key.clone()));
             }
         }
         canon.sort();
         out.count(&format!("sys:split:ckpt={},deltas={}", if ckpt.as_ref().map(|c| !c.is_empty()).unwrap_or(false) { "some" } else { "none" }, if deltas.is_empty() { "none" } else { "some" }));
-        b.apply_recovered_state(ckpt, deltas);
+        b.apply_recovered_state(ckpt, segs);
         out.op(line, "ok".into());
+        if two_phase {
+            b.apply_recovered_state(None, wal);
+            out.op(line2, "ok".into());
+        }
         let mut rtext = format!("{}RESTART split={} [{}];", text, j, canon.join(" | "));
         for op in &post {
             let Some(i) = local(out, &b, &brx, op, &mut rtext).await else { continue };
